@@ -546,6 +546,23 @@ func delPeer(t *Torrent, p *peer.Peer) bool {
 		if len(t.peers) == 0 {
 			t.peers = nil
 		}
+		// The peer's loop has exited and we won't write to it again:
+		// the requests still sitting in its event queue will never be
+		// seen (maybeWritePeer may even have queued some after Done
+		// was closed), so they are no longer in flight.
+	drain:
+		for {
+			select {
+			case e := <-p.Event:
+				if r, ok := e.(peer.PeerRequest); ok {
+					for _, c := range r.Chunks {
+						noteInFlight(t, c, false)
+					}
+				}
+			default:
+				break drain
+			}
+		}
 	}
 	// at this point, the dying peer won't reply to a GetPex request
 	addr := p.GetAddr()
